@@ -147,6 +147,11 @@ func init() {
 		e.c15Arith(t, s, f, "NewCustomConsistentHash", "if replicas < minReplicas", "newReplicas", []string{"replicas"}, "replicas")
 		e.c15Arith(t, s, f, "ConsistentHash.AddWithReplicas", "if replicas > h.replicas", "clampReplicas", []string{"replicas"}, "replicas")
 		e.c15Arith(t, s, f, "ConsistentHash.AddWithWeight", "replicas := ", "weightReplicas", []string{"weight"}, "replicas")
+		if st := c15Stmt(s, s.findFunc(f, "ConsistentHash.AddWithWeight"), "replicas := "); st != nil {
+			e.stringList("weightStmt", "the weight formula as written", []string{s.src(st)})
+		} else {
+			e.stringList("weightStmt", "the weight formula as written", []string{"MISSING"})
+		}
 		for _, fn := range [][2]string{
 			{"NewConsistentHash", "newDefault"}, {"NewCustomConsistentHash", "newCustom"}, {"ConsistentHash.Add", "add"},
 			{"ConsistentHash.AddWithReplicas", "addWithReplicas"}, {"ConsistentHash.AddWithWeight", "addWithWeight"},
